@@ -35,7 +35,7 @@ TARGETS = ["local", "global", "elem", "mapelem"]
 FRAMES = ["direct", "catch", "funptr", "call_other", "callback"]
 MISC = ["foreach1", "foreach2", "expand", "expand_lfun", "switch_int", "switch_str", "member", "member_set", "sscanf", "parse_command",
         "aggregate", "catch_throw", "evaluate", "call_other_any", "neg_index_chain", "while_dec", "loop_cond", "string_char_inc",
-        "add_eq_chain", "sprintf_col", "sprintf_tab", "implode_fp", "sort_fp", "unique_fp", "filter_map", "save_restore"]
+        "add_eq_chain", "sprintf_col", "sprintf_tab", "implode_fp", "sort_fp", "unique_fp", "filter_map", "save_restore", "reg_assoc", "regexp"]
 
 # "chain" tests: a value held by two variables goes through three statements, so that what an in-place write (copy on write) leaves
 # behind is consumed by a later operator or efun that sizes its result from the cached length / size
@@ -50,6 +50,10 @@ CHAINSTEPS = LVALFORMS + ["y = x + b", "y = b + x", "x += b", "x += x", "y = x",
 _BIG = [i for i, v in enumerate(genlpc.ALL_VALUES) if v[0] in ("s_65535", "s_65536", "s_70000", "s_256", "a_1000", "a_max", "a_8", "s_abc", "m_100", "b_1000")]
 _SMALLINT = [i for i, v in enumerate(genlpc.ALL_VALUES) if v[0] in ("i0", "i1", "i2", "i7", "i255", "i65535")]
 _FILL = [i for i, v in enumerate(genlpc.ALL_VALUES) if v[0] in ("i7", "i255", "s_a", "s_abc", "s_empty", "a_1", "a_mixed", "s_256")]
+
+_RE_SUBJ = [i for i, v in enumerate(genlpc.ALL_VALUES) if v[0] in ("s_subject", "s_abc", "s_empty", "s_a", "s_nl", "s_256", "s_words")]
+_RE_PATS = [i for i, v in enumerate(genlpc.ALL_VALUES) if v[0] in ("a_re", "a_re2", "a_str")]
+_RE_TOKS = [i for i, v in enumerate(genlpc.ALL_VALUES) if v[0] in ("a_tok2", "a_str", "a_1")]
 
 EXCLUDED_EFUNS = {"shutdown": "terminating is its documented job"}
 
@@ -119,7 +123,11 @@ def one_test(draw):
     elif k == "lval":
         t = dict(kind=k, op=draw(st.sampled_from(LVALFORMS)), vals=[draw(vals), draw(vals), draw(vals), draw(vals)])
     else:
-        t = dict(kind=k, op=draw(st.sampled_from(MISC)), vals=[draw(vals), draw(vals), draw(vals)])
+        op = draw(st.sampled_from(MISC))
+        t = dict(kind=k, op=op, vals=[draw(vals), draw(vals), draw(vals)])
+        if op in ("reg_assoc", "regexp") and draw(st.integers(0, 9)) < 8:
+            # mostly well-typed: a subject, an array of patterns (among them patterns that match the empty string), tokens of the same size
+            t["vals"] = [list(_VALS[draw(st.sampled_from(_RE_SUBJ))]), list(_VALS[draw(st.sampled_from(_RE_PATS))]), list(_VALS[draw(st.sampled_from(_RE_TOKS))])]
     t["frame"] = frame
     return t
 
@@ -189,6 +197,8 @@ def body_of(t):
         "unique_fp": "return unique_array(a, b, c);",
         "filter_map": "return ({ filter(a, b, c), map(a, b, c) });",
         "save_restore": "return restore_variable(save_variable(a));",
+        "reg_assoc": "return reg_assoc(a, b, c);",
+        "regexp": "return ({ regexp(({ a, a + a, \"\" }), b[0]), regexp(({ a }), b[1], 1) });",
     }
     return m[op]
 
